@@ -957,6 +957,10 @@ func (f *bpFn) prove(pt point, g goal, hyps []sfact, depth int) bool {
 	if f.proveSplit(pt.b, g, nil, nil, hyps, 0) {
 		return true
 	}
+	// case split on a merge phi that occurs in the facts (m := max(len(a), len(b)) built by an if)
+	if f.proveFactPhiSplit(pt, g, facts, dqs) {
+		return true
+	}
 	// case split / induction on a phi occurring in the goal
 	for _, t := range []term{g.u, g.v} {
 		ph, ok := t.v.(*ssa.Phi)
@@ -970,6 +974,95 @@ func (f *bpFn) prove(pt point, g goal, hyps []sfact, depth int) bool {
 	// parameter facts from all call sites
 	if f.proveViaCallers(pt, g, facts, dqs, depth) {
 		return true
+	}
+	return false
+}
+
+// inconsistent: the difference constraints have a negative cycle somewhere
+func inconsistent(facts []dfact) bool {
+	dist := map[term]int64{}
+	for _, ft := range facts {
+		dist[ft.u], dist[ft.v] = 0, 0
+	}
+	changed := true
+	for iter := 0; iter < len(dist)+2 && changed; iter++ {
+		changed = false
+		for _, ft := range facts {
+			if dist[ft.v]+ft.c < dist[ft.u] {
+				dist[ft.u] = dist[ft.v] + ft.c
+				changed = true
+			}
+		}
+	}
+	return changed
+}
+
+// proveFactPhiSplit: some fact mentions an integer phi M of a plain merge block (not a loop head)
+// that dominates the point. For each incoming edge, replace M by that edge's value, add the
+// conditions of the edge, and require the goal (or a contradiction: that edge cannot lead here).
+func (f *bpFn) proveFactPhiSplit(pt point, g goal, facts []dfact, dqs []diseq) bool {
+	seen := map[*ssa.Phi]bool{}
+	var cands []*ssa.Phi
+	for _, ft := range facts {
+		for _, t := range []term{ft.u, ft.v} {
+			ph, ok := t.v.(*ssa.Phi)
+			if !ok || t.k != tInt || seen[ph] {
+				continue
+			}
+			seen[ph] = true
+			blk := ph.Block()
+			if !blk.Dominates(pt.b) {
+				continue
+			}
+			loopHead := false
+			for _, pr := range blk.Preds {
+				if blk.Dominates(pr) {
+					loopHead = true
+				}
+			}
+			if !loopHead {
+				cands = append(cands, ph)
+			}
+		}
+	}
+	if len(cands) > 4 {
+		cands = cands[:4]
+	}
+	for _, ph := range cands {
+		blk := ph.Block()
+		all := true
+		for i, pred := range blk.Preds {
+			et, eo := f.intTerm(ph.Edges[i])
+			mt := term{tInt, ph}
+			sub := make([]dfact, 0, len(facts)+8)
+			for _, ft := range facts {
+				nf := ft
+				if nf.u == mt {
+					nf.u, nf.c = et, nf.c-eo
+				}
+				if nf.v == mt {
+					nf.v, nf.c = et, nf.c+eo
+				}
+				sub = append(sub, nf)
+			}
+			var edq []diseq
+			f.edgeFacts(pred, blk, &sub, &edq)
+			ng := g
+			if ng.u == mt {
+				ng.u, ng.c = et, ng.c-eo
+			}
+			if ng.v == mt {
+				ng.v, ng.c = et, ng.c+eo
+			}
+			if inconsistent(sub) || entails(sub, append(append([]diseq{}, dqs...), edq...), ng) {
+				continue
+			}
+			all = false
+			break
+		}
+		if all {
+			return true
+		}
 	}
 	return false
 }
